@@ -5,7 +5,15 @@ branches = polylines with radii at the knots.  The resampled tree is cut the sam
 sets of branches are paired by a recursive search that respects connectivity and end positions.
 For a paired branch with m steps in the output, sample k must sit at arc length k*L/m of the
 original polyline (equal steps), L/m must not exceed the spacing, and its radius must be the
-piecewise-linear interpolation of the knot radii over arc length.
+piecewise-linear interpolation of the knot radii over arc length.  All lengths are computed in
+float64 from the float32-stored coordinates (what the library sees).
+
+Input space: every small parent table x coordinate modes x fixed spacings, plus generic derived
+families whose spacings are computed from the geometry (see "generic input families" below):
+tortuous branches (chord << path) with spacings between chord and path length, coincident nodes
+with radius steps inserted on every edge, spacing = branch length / ratio (exact multiples,
+slightly above a multiple, branch shorter than the spacing), permuted branch lists for the
+assembler, sibling branches that end at one position, and seeded random combinations.
 """
 from __future__ import annotations
 
@@ -92,65 +100,117 @@ def table_ok(pid):
     return True
 
 
+def dist_points_polyline(Q, P):
+    """distance of every point of Q to the polyline P (vectorised form of dist_point_polyline)"""
+    Q, P = np.asarray(Q, dtype=np.float64).reshape(-1, 3), np.asarray(P, dtype=np.float64).reshape(-1, 3)
+    best = np.sqrt(((Q[:, None, :] - P[None, :, :]) ** 2).sum(axis=2)).min(axis=1)
+    if len(P) >= 2:
+        d = P[1:] - P[:-1]
+        dd = (d * d).sum(axis=1)
+        ok = dd > 0
+        if ok.any():
+            d, dd, P0 = d[ok], dd[ok], P[:-1][ok]
+            w = np.clip(((Q[:, None, :] - P0[None, :, :]) * d[None, :, :]).sum(axis=2) / dd[None, :], 0.0, 1.0)
+            foot = P0[None, :, :] + w[:, :, None] * d[None, :, :]
+            best = np.minimum(best, np.sqrt(((foot - Q[:, None, :]) ** 2).sum(axis=2)).min(axis=1))
+    return best
+
+
+def at_arcs(P, R, S):
+    """vectorised at_arc: positions at the arc lengths S and the admissible radius intervals (lo, hi) there"""
+    P, R = np.asarray(P, dtype=np.float64).reshape(-1, 3), np.asarray(R, dtype=np.float64)
+    a = arc_lengths(P)
+    L = a[-1]
+    S = np.clip(np.asarray(S, dtype=np.float64), 0.0, L)
+    same = np.abs(a[None, :] - S[:, None]) <= 1e-7 * (1 + L)
+    hit = same.any(axis=1)
+    first = same.argmax(axis=1)
+    if len(P) >= 2:
+        j = np.clip(np.searchsorted(a, S, side="right") - 1, 0, len(a) - 2)
+        den = a[j + 1] - a[j]
+        w = np.where(den > 0, (S - a[j]) / np.where(den > 0, den, 1.0), 0.0)
+        pos = P[j] + w[:, None] * (P[j + 1] - P[j])
+        rad = R[j] + w * (R[j + 1] - R[j])
+    else:
+        pos, rad = np.repeat(P[:1], len(S), axis=0), np.repeat(R[:1], len(S))
+    pos = np.where(hit[:, None], P[first], pos)
+    lo = np.where(hit, np.where(same, R[None, :], np.inf).min(axis=1), rad)
+    hi = np.where(hit, np.where(same, R[None, :], -np.inf).max(axis=1), rad)
+    return pos, lo, hi
+
+
 def branch_deviation(Pin, Rin, Pout, Rout):
     """(max position error vs equal arc steps, max radius error, max distance to polyline, step length)"""
-    a = arc_lengths(Pin)
-    L = a[-1]
+    Pin, Pout, Rout = np.asarray(Pin, dtype=np.float64).reshape(-1, 3), np.asarray(Pout, dtype=np.float64).reshape(-1, 3), np.asarray(Rout, dtype=np.float64)
+    L = arc_lengths(Pin)[-1]
     m = len(Pout) - 1
-    epos = erad = eline = 0.0
-    for k in range(m + 1):
-        want, (rlo, rhi) = at_arc(Pin, Rin, k * L / m)
-        epos = max(epos, float(np.sqrt(((np.asarray(Pout[k], dtype=np.float64) - want) ** 2).sum())))
-        r = float(Rout[k])
-        erad = max(erad, rlo - r, r - rhi, 0.0)
-        eline = max(eline, dist_point_polyline(Pout[k], Pin))
+    want, rlo, rhi = at_arcs(Pin, Rin, np.arange(m + 1) * L / m)
+    epos = float(np.sqrt(((Pout - want) ** 2).sum(axis=1)).max())
+    erad = float(max((rlo - Rout).max(), (Rout - rhi).max(), 0.0))
+    eline = float(dist_points_polyline(Pout, Pin).max())
     return epos, erad, eline, L / m
 
 
 def pair_branches(A, B):
-    """A, B = (pid, xyz, r).  Returns (cost, [(chain in A, chain in B), ...]) for the cheapest pairing of the branches of
-    the two trees that respects connectivity and (within TOL) the positions of the critical nodes, or None."""
+    """A, B = (pid, xyz, r).  Returns (cost, [(chain in A, chain in B, branch_deviation of the pair), ...]) for the cheapest
+    pairing of the branches of the two trees that respects connectivity and (within TOL) the positions of the critical
+    nodes, or None."""
     pa, xa, ra = A
     pb, xb, rb = B
+    xa, xb, ra, rb = np.asarray(xa, dtype=np.float64), np.asarray(xb, dtype=np.float64), np.asarray(ra, dtype=np.float64), np.asarray(rb, dtype=np.float64)
     _, _, ba = cut_branches(pa)
     _, _, bb = cut_branches(pb)
+    memo, devs = {}, {}
 
-    def close(i, j):
-        return float(np.sqrt(((np.asarray(xa[i], dtype=np.float64) - np.asarray(xb[j], dtype=np.float64)) ** 2).sum())) <= TOL
+    def dev_of(ca, cb):
+        k = (ca[-1], cb[-1])  # a chain is identified by its last node
+        if k not in devs:
+            devs[k] = branch_deviation(xa[ca], ra[ca], xb[cb], rb[cb])
+        return devs[k]
 
     def match(i, j):
-        if not close(i, j) or len(ba[i]) != len(bb[j]):
+        if (i, j) not in memo:
+            memo[(i, j)] = _match(i, j)
+        return memo[(i, j)]
+
+    def _match(i, j):
+        if float(np.sqrt(((xa[i] - xb[j]) ** 2).sum())) > TOL or len(ba[i]) != len(bb[j]):
             return None
+        # cost of pairing chain a of node i with chain b of node j (None = impossible), then the cheapest assignment
+        cell = [[None] * len(bb[j]) for _ in ba[i]]
+        for x, ca in enumerate(ba[i]):
+            for y, cb in enumerate(bb[j]):
+                sub = match(ca[-1], cb[-1])
+                if sub is not None:
+                    dev = dev_of(ca, cb)
+                    cell[x][y] = (dev[0] + dev[1] + sub[0], [(ca, cb, dev)] + sub[1])
         best = None
         for perm in itertools.permutations(range(len(bb[j]))):
-            cost, pairs, ok = 0.0, [], True
-            for ca, kb in zip(ba[i], perm):
-                cb = bb[j][kb]
-                sub = match(ca[-1], cb[-1])
-                if sub is None:
-                    ok = False
-                    break
-                dev = branch_deviation([xa[v] for v in ca], [ra[v] for v in ca], [xb[v] for v in cb], [rb[v] for v in cb])
-                cost += dev[0] + dev[1] + sub[0]
-                pairs += [(ca, cb)] + sub[1]
-            if ok and (best is None or cost < best[0]):
-                best = (cost, pairs)
-        return best
+            if any(cell[x][y] is None for x, y in enumerate(perm)):
+                continue
+            cost = sum(cell[x][y][0] for x, y in enumerate(perm))
+            if best is None or cost < best[0]:
+                best = (cost, perm)
+        if best is None:
+            return None
+        return best[0], [p for x, y in enumerate(best[1]) for p in cell[x][y][1]]
 
     return match(0, 0)
 
 
 # ----------------------------------------------------------------------------- reporting
 class Reporter:
+    """at most 2 violations per (carrier, clause, variant, input family) and 6 per (carrier, clause) are handed to the driver"""
+
     def __init__(self, ctx):
         self.ctx, self.count = ctx, {}
 
     def __call__(self, carrier, clause, inp, observed, expected, variant=None):
         k = (carrier, clause)
-        kv = (carrier, clause, variant)
+        kv = (carrier, clause, variant, inp.get("family") if isinstance(inp, dict) else None)
         self.count[kv] = self.count.get(kv, 0) + 1
         self.count[k] = self.count.get(k, 0) + (1 if self.count[kv] <= 2 else 0)
-        if self.count[kv] <= 2 and self.count[k] <= 4:
+        if self.count[kv] <= 2 and self.count[k] <= 6:
             self.ctx.violation(carrier, clause, inp, observed, expected, inp)
 
 
@@ -164,6 +224,164 @@ def radii_for(n):
     return [1.0 + 0.25 * ((i * 3) % 5) for i in range(n)]
 
 
+# ----------------------------------------------------------------------------- generic input families
+def nth_permutation(m, k):
+    """the k-th (modulo m!) permutation of range(m) in itertools order; k = 0 is the identity"""
+    perms = list(itertools.permutations(range(m)))
+    return perms[k % len(perms)]
+
+
+def is_involution(p):
+    return all(p[p[i]] == i for i in range(len(p)))
+
+
+def permutation_indices(m, quick, rng):
+    """indices k >= 1 of the permutations of m branches to try: all of them for m <= 3 (m <= 4 in the thorough tier, m <= 5
+    there too), otherwise every permutation that is not its own inverse (m = 4) or a seeded sample (m >= 5), plus a few involutions"""
+    perms = list(itertools.permutations(range(m)))
+    if m <= 3 or (not quick and m <= 5):
+        return list(range(1, len(perms)))
+    non_inv = [k for k, p in enumerate(perms) if not is_involution(p)]
+    inv = [k for k, p in enumerate(perms) if is_involution(p) and k > 0]
+    if m == 4:
+        return sorted(non_inv + inv[:3])
+    return sorted(rng.sample(non_inv, 12) + rng.sample(inv, 3))
+
+
+def expand_table(pid, s):
+    """the sorted parent table in which every edge of `pid` is replaced by a chain of s segments (s - 1 new nodes)"""
+    new, img = [-1], {0: 0}
+    for i in range(1, len(pid)):
+        prev = img[pid[i]]
+        for _ in range(s - 1):
+            new.append(prev)
+            prev = len(new) - 1
+        new.append(prev)
+        img[i] = len(new) - 1
+    return tuple(new)
+
+
+_S = 0.5 ** 0.5
+FRAMES = [((1, 0, 0), (0, 1, 0), (0, 0, 1)), ((0, 1, 0), (0, 0, 1), (1, 0, 0)), ((0, 0, 1), (1, 0, 0), (0, 1, 0)), ((-1, 0, 0), (0, -1, 0), (0, 0, 1)),
+          ((0.6, 0.8, 0), (-0.8, 0.6, 0), (0, 0, 1)), ((0, -1, 0), (0, 0, 1), (-1, 0, 0)), ((_S, 0, _S), (0, 1, 0), (-_S, 0, _S)), ((0, 0.6, -0.8), (1, 0, 0), (0, -0.8, -0.6))]
+FOLD_SHAPES = ("hairpin", "uturn", "loop", "closed")
+
+
+def fold_point(shape, j, m):
+    """local coordinates of node j of a branch with m >= 2 segments that starts at the origin (before the per-branch scale
+    1..1.6).  The path length is about 1.5 m, the chord (distance of node m from the origin) is short: hairpin 0.3..0.6,
+    uturn 0.5, loop < 0.14 m, closed 0."""
+    u = j / m
+    out = 1.5 * m * min(u, 1 - u)
+    if shape == "hairpin":  # out along x and back, drifting sideways all the way
+        return (out, 0.3 * u * (1 + m % 2), 0.0)
+    if shape == "uturn":  # out along x, the sideways step in the turning segment only, back parallel to the way out
+        return (1.5 * min(j, m - j), 0.0 if 2 * j < m else (0.5 if 2 * j > m else 0.25), 0.0)
+    if shape == "loop":  # nearly closed polygon inscribed in a circle, slightly out of plane
+        phi, rho = 2 * np.pi * 0.93 * u, 0.3 * m
+        return (rho * (1 - np.cos(phi)), rho * np.sin(phi), 0.05 * u)
+    if shape == "closed":  # ends exactly where it starts
+        return (out, 0.0 if j == m else 0.4 * np.sin(2 * np.pi * u), 0.0)
+    raise ValueError(shape)
+
+
+def folded_coords(pid, shape, rng=None):
+    """coords_for-style coordinates in which every branch (chain between critical nodes) with >= 2 segments folds back so
+    that its end is close to (or at) its start; single-segment branches are straight.  The frame depends on the branch."""
+    n = len(pid)
+    xyz = np.zeros((n, 3), dtype=np.float64)
+    xyz[0] = (1.0, 2.0, 3.0)
+    _, _, br = cut_branches(list(pid))
+    ordinal = 0
+    for c in sorted(br):  # sorted table: a critical node precedes the ends of its branches
+        for chain in br[c]:
+            m, ordinal = len(chain) - 1, ordinal + 1
+            d, e, f = (np.array(v, dtype=np.float64) for v in FRAMES[(ordinal * 3) % len(FRAMES)])  # up to 8 sibling branches get 8 frames
+            scale = 1 + 0.2 * (ordinal % 4)  # branches of one tree differ in size
+            for j in range(1, m + 1):
+                a, b, g = (1.5, 0.0, 0.0) if m == 1 else fold_point(shape, j, m)
+                xyz[chain[j]] = xyz[c] + scale * (a * d + b * e + g * f)
+    if rng is not None:
+        xyz += np.array([[rng.uniform(-0.05, 0.05) for _ in range(3)] for _ in range(n)])
+    return xyz
+
+
+def has_chain(pid):
+    """some branch has >= 2 segments"""
+    return any(i > 0 and list(pid).count(i) == 1 for i in range(len(pid)))
+
+
+def stored(xyz):
+    """the coordinates as the library sees them (float32 storage), in float64"""
+    return np.asarray(xyz, dtype=np.float32).astype(np.float64)
+
+
+def branch_geometry(pid, xyz):
+    """[(chain, path length, chord)] of the branches, computed in float64 from the float32-stored coordinates"""
+    X = stored(xyz)
+    _, _, br = cut_branches(list(pid))
+    return [(ch, float(arc_lengths(X[ch])[-1]), float(np.sqrt(((X[ch[-1]] - X[ch[0]]) ** 2).sum()))) for c in sorted(br) for ch in br[c]]
+
+
+def tortuous_spacings(geom, fracs, most=2):
+    """[(rule, spacing)] with chord < spacing < path length for the `most` most tortuous branches"""
+    tort = sorted((g for g in geom if g[1] - g[2] > 0.05 * g[1] and g[1] > 0), key=lambda g: (g[2] / g[1], -g[1]))
+    picked = tort[:most - 1] + (tort[-1:] if len(tort) >= most else []) if most > 1 else tort[:1]
+    return [(f"chord+{f}*(path-chord) of branch {ch[0]}..{ch[-1]} (path {L:.4f}, chord {c:.4f})", c + f * (L - c)) for ch, L, c in picked for f in fracs]
+
+
+RATIOS_QUICK = [1, 2, 5, 1.001, 1.004, 2.002, 3.001, 7.003, 0.4]
+RATIOS_THOROUGH = sorted({k + e for k in (1, 2, 3, 4, 6, 9, 17) for e in (0, 0.001, 0.002, 0.003, 0.004)} | {0.4, 0.999, 0.05, 0.99999, 1.00001, 3.00001})
+
+
+def ratio_spacings(L, ratios):
+    """[(rule, spacing)]: branch length / ratio, i.e. the branch is `ratio` spacings long (exact multiples, slightly above a
+    multiple, shorter than the spacing)"""
+    return [(f"length {L:.6f} / {q}", L / q) for q in ratios] if L > 0 else []
+
+
+def insert_coincident(pid, xyz, r, k, at, dr):
+    """a new node on the edge (pid[k], k) at the position of its parent end (at='parent') or child end (at='child') with a
+    radius that differs by dr from that end's radius: a zero-length segment with a radius step.  Sorted table again."""
+    p = pid[k]
+    src = p if at == "parent" else k
+    sh = lambda q: q if q < k else q + 1  # noqa: E731
+    npid = [sh(q) if q >= 0 else -1 for q in pid[:k]] + [p, k] + [k + 1 if q == k else sh(q) for q in pid[k + 1:]]
+    nxyz = np.concatenate([xyz[:k], xyz[src][None, :], xyz[k:]])
+    nr = list(r[:k]) + [max(0.05, r[src] + dr)] + list(r[k:])
+    return tuple(npid), nxyz, nr
+
+
+def sibling_end_pairs(pid):
+    """[(u, w)]: ends of two different branches that start at the same critical node"""
+    _, _, br = cut_branches(list(pid))
+    return [(a[-1], b[-1]) for c in sorted(br) for a, b in itertools.combinations(br[c], 2)]
+
+
+def make_siblings_coincide(pid, xyz, u, w):
+    """translate the subtree of w so that w lies on u: two sibling branches with different routes end at one position"""
+    out = np.array(xyz, dtype=np.float64, copy=True)
+    ch, st, sub = children_of(pid), [w], []
+    while st:
+        v = st.pop()
+        sub.append(v)
+        st.extend(ch[v])
+    out[sub] += out[u] - out[w]
+    out[w] = out[u]
+    return out
+
+
+def coincident_sibling_ends(pid, xyz):
+    """the pairs of sibling branch ends that lie (nearly) at one position: there pairing branches with children BY POSITION is
+    ambiguous as soon as the branch list is not in the children's order"""
+    X = stored(xyz)
+    return [(u, w) for u, w in sibling_end_pairs(pid) if float(np.abs(X[u] - X[w]).max()) <= 1e-3]
+
+
+def sibling_ends_distinct(pid, xyz):
+    return not coincident_sibling_ends(pid, xyz)
+
+
 # ----------------------------------------------------------------------------- IsometricResampler
 def check_resample_tree(rep, spec):
     from swcgeom.transforms.tree import IsometricResampler
@@ -173,16 +391,23 @@ def check_resample_tree(rep, spec):
     variant = "root-type-%d" % spec["type"][0]
     t = make_tree(pid, xyz, r, spec["type"])
     try:
-        if spec.get("rotate_branches"):
+        if spec.get("rotate_branches") is not None or spec.get("permute_branches") is not None:
             # the assembler pairs each resampled branch with the child it ends at BY POSITION, so the order in which a node's
-            # branches are stored must not matter: same pipeline as Resampler.__call__, branch lists cyclically rotated
+            # branches are stored must not matter: same pipeline as Resampler.__call__, every node's branch list reordered
+            # (rotate_branches = k: cyclic rotation by k; permute_branches = k: the k-th permutation, in itertools order and
+            # modulo m!, of a list of m branches; 0 = the order of BranchTree.from_tree)
             from swcgeom.core import BranchTree
             from swcgeom.transforms.branch import BranchIsometricResampler
             from swcgeom.transforms.branch_tree import BranchTreeAssembler
 
             carrier = "BranchTreeAssembler.__call__"
-            bt, rs, k0 = BranchTree.from_tree(t), BranchIsometricResampler(delta), int(spec["rotate_branches"])
-            bt.branches = {k: (lambda L: L[k0 % len(L):] + L[:k0 % len(L)])([rs(br) for br in brs]) for k, brs in bt.branches.items()}
+            bt, rs = BranchTree.from_tree(t), BranchIsometricResampler(delta)
+            if spec.get("permute_branches") is not None:
+                reorder = lambda L: [L[q] for q in nth_permutation(len(L), int(spec["permute_branches"]))]  # noqa: E731
+            else:
+                k0 = int(spec["rotate_branches"])
+                reorder = lambda L: L[k0 % len(L):] + L[:k0 % len(L)]  # noqa: E731
+            bt.branches = {k: reorder([rs(br) for br in brs]) for k, brs in bt.branches.items()}
             out = BranchTreeAssembler()(bt)
         else:
             out = IsometricResampler(delta)(t)
@@ -214,10 +439,9 @@ def check_resample_tree(rep, spec):
                 rep(carrier, "samples-on-polyline", spec, f"output node {k} at {oxyz[k].tolist()} is {d:.5f} away from every branch", f"<= {TOL}")
                 break
         return
-    for ca, cb in pairing[1]:
+    for ca, cb, (epos, erad, eline, step) in pairing[1]:
         Pin, Rin = [A[1][v] for v in ca], [A[2][v] for v in ca]
         Pout, Rout = [oxyz[v] for v in cb], [orr[v] for v in cb]
-        epos, erad, eline, step = branch_deviation(Pin, Rin, Pout, Rout)
         L = arc_lengths(Pin)[-1]
         desc = f"branch {ca} (length {L:.5f}) -> {len(cb)} output nodes"
         if eline > TOL:
@@ -247,7 +471,78 @@ BRANCHES = {
     "all-coincident2": [[1, 1, 1, 1], [1, 1, 1, 1]],
     "all-coincident3-r-differs": [[1, 1, 1, 1], [1, 1, 1, 2], [1, 1, 1, 3]],
     "closed-loop": [[0, 0, 0, 1], [1, 0, 0, 2], [1, 1, 0, 2], [0, 0, 0, 1]],
+    # tortuous: the chord (end-to-end distance) is much shorter than the path
+    "hairpin5": [[0, 0, 0, 1], [2, 0, 0, 2], [4, 0, 0, 1.5], [2, 0.3, 0, 1], [0, 0.3, 0, 2]],
+    "uturn4": [[1, 1, 1, 1], [4, 1, 1, 2], [4, 1.5, 1, 2], [1, 1.5, 1, 0.5]],
+    "nearly-closed-square5": [[0, 0, 0, 1], [2, 0, 0, 1.5], [2, 2, 0, 2], [0, 2, 0, 1.5], [0, 0.2, 0, 1]],
+    "retrace3": [[1, 1, 1, 1], [4, 1, 1, 3], [1, 1, 1, 2]],
+    "retrace5-zero-turn": [[0, 0, 0, 1], [0, 2, 0, 2], [0, 3, 0, 1], [0, 3, 0, 3], [0, 0.5, 0, 2]],
+    "helix13": [[round(float(np.cos(0.5 * np.pi * k)), 3), round(float(np.sin(0.5 * np.pi * k)), 3), round(0.04 * k, 3), 1 + 0.25 * (k % 4)] for k in range(13)],
+    "zigzag-fold8": [[0.4 * k, 1.5 * (k % 2), 0.1 * k, 0.5 + 0.3 * (k % 3)] for k in range(8)],
+    # 2-node branches, exact and inexact lengths, short branches
+    "short2": [[0, 0, 0, 1], [0.25, 0, 0, 2]],
+    "diag2-length3": [[0, 0, 0, 1], [1, 2, 2, 0.5]],
+    "tiny2": [[5, 5, 5, 2], [5, 5.001, 5, 1]],
+    "unit-steps7": [[k, 0, 0, 1 + 0.5 * (k % 2)] for k in range(7)],
+    "inexact3": [[0.1, 0.2, 0.3, 1], [1.3, 0.7, 2.9, 2], [2.2, 3.1, 3.3, 0.7]],
+    "offset-origin4": [[100.1, 200.2, 300.3, 1], [101.3, 200.2, 300.3, 2], [101.3, 202.7, 300.3, 1], [101.3, 202.7, 304.1, 3]],
+    # runs of coincident nodes with radius steps
+    "zero-run-mid-r-steps": [[0, 0, 0, 1], [1, 0, 0, 2], [1, 0, 0, 4], [1, 0, 0, 0.5], [3, 0, 0, 1]],
+    "zero-second-r-jump-then-long": [[0, 0, 0, 1], [0.5, 0, 0, 1], [0.5, 0, 0, 5], [4.5, 0, 0, 0.5]],
+    "zero-twice": [[0, 0, 0, 1], [1, 1, 0, 3], [1, 1, 0, 1], [2, 1, 1, 2], [2, 1, 1, 0.5], [2, 3, 1, 1]],
 }
+
+
+def chord_path(b):
+    P = stored(np.array(b, dtype=np.float64)[:, :3])
+    return float(np.sqrt(((P[-1] - P[0]) ** 2).sum())), float(arc_lengths(P)[-1])
+
+
+def branch_spacings(b, quick=True):
+    """[(rule, spacing)] derived from the geometry of the branch: between chord and path length for tortuous branches;
+    branch length = ratio * spacing for exact multiples, ratios slightly above a multiple and ratios < 1"""
+    c, L = chord_path(b)
+    out = []
+    if L > 0 and L - c > 0.05 * L:
+        out += [(f"chord+{f}*(path-chord) (path {L:.4f}, chord {c:.4f})", c + f * (L - c)) for f in ((0.02, 0.3, 0.6, 0.98) if quick else (0.0, 0.02, 0.1, 0.3, 0.5, 0.6, 0.8, 0.98))]
+    out += ratio_spacings(L, RATIOS_QUICK if quick else RATIOS_THOROUGH)
+    return [(rule, d) for rule, d in out if d > 0 and d >= L / 5000]  # a spacing is > 0 (and the output stays small)
+
+
+def random_branch(rng):
+    """(kind, xyzr): uniform cloud walk (the original generator), folded (out and back), loop (polygon that ends at or
+    near its start), collinear with commensurable steps"""
+    kind = rng.choice(["uniform", "uniform", "folded", "loop", "collinear"])
+    k = rng.randint(2, 9) if kind in ("uniform", "collinear") else rng.randint(3, 9)
+    rad = lambda: round(rng.uniform(0.2, 3), 2)  # noqa: E731
+    if kind == "uniform":
+        b = [[round(rng.uniform(-3, 3), 2) for _ in range(3)] + [rad()] for _ in range(k)]
+    elif kind == "folded":
+        d, e, f = FRAMES[rng.randrange(len(FRAMES))]
+        t, ts = 0.0, [0.0]
+        for j in range(1, k):
+            t += rng.uniform(0.4, 2.0) * (1 if 2 * j <= k else -1)
+            ts.append(t)
+        shift = rng.choice([0.0, 1.0]) * ts[-1]  # 1.0: the end is brought back to the level of the start
+        org = [rng.uniform(-2, 2) for _ in range(3)]
+        b = [[round(org[a] + (ts[j] - shift * j / (k - 1)) * d[a] + 0.3 * rng.random() * (j / k) * e[a] + rng.uniform(-0.05, 0.05) * f[a], 3) for a in range(3)] + [rad()] for j in range(k)]
+    elif kind == "loop":
+        d, e, f = FRAMES[rng.randrange(len(FRAMES))]
+        frac, rho = rng.choice([1.0, 1.0, 0.97, 0.9, 0.75]), rng.uniform(0.3, 2.5)
+        org = [rng.uniform(-2, 2) for _ in range(3)]
+        b = [[round(org[a] + rho * (1 - np.cos(2 * np.pi * frac * j / (k - 1))) * d[a] + rho * np.sin(2 * np.pi * frac * j / (k - 1)) * e[a] + rng.uniform(-0.1, 0.1) * f[a], 3) for a in range(3)] + [rad()] for j in range(k)]
+        if frac == 1.0:
+            b[-1][:3] = b[0][:3]
+    else:
+        step, axis, pos = rng.choice([0.25, 0.5, 1.0, 0.3]), rng.randrange(3), [float(rng.randint(-2, 2)) for _ in range(3)]
+        b = []
+        for _ in range(k):
+            b.append([round(v, 6) for v in pos] + [rad()])
+            pos[axis] += step * rng.randint(0, 4)
+    if rng.random() < 0.3:
+        j = rng.randrange(k - 1)
+        b[j + 1][:3] = b[j][:3]
+    return kind, b
 
 
 def check_branch_resampler(rep, spec):
@@ -356,6 +651,158 @@ def check_tree_smoother(rep, spec):
 
 # ----------------------------------------------------------------------------- driver
 DISTANCES = [0.3, 1, 2.5, 100]
+LINEAR_N = (2, 3, 4, 7, 16, 64, 257)
+
+
+def smoothing_windows(n_nodes):
+    """window 1, even and odd windows, and windows larger than the branch (n + 1, 2 n + 1, 2 n + 2, 50)"""
+    return sorted({1, 2, 3, 4, 5, 6, 8, n_nodes + 1, 2 * n_nodes + 1, 2 * n_nodes + 2, 50})
+
+
+def tree_case(family, pid, xyz, r, delta, rule=None, root_type=1, **extra):
+    spec = dict(kind="resample-tree", family=family, distance=float(delta), **extra, **tree_input(pid, xyz, r, root_type))
+    if rule is not None:
+        spec["spacing_rule"] = rule
+    return spec
+
+
+def derived_tree_cases(quick, rng, seed):
+    """the generic input families for IsometricResampler / BranchTreeAssembler beyond (table x coordinates x fixed spacing):
+    yields (case group, spec)"""
+    tab4, tab5, tab6 = list(all_sorted_tables_upto(4, 2)), list(all_sorted_tables_upto(5, 2)), list(all_sorted_tables_upto(6, 2))
+
+    # (1a) folded coordinate modes on the plain tables: chains fold back; spacing between chord and path of the most tortuous branches
+    for pid in tab6 if quick else all_sorted_tables_upto(7, 2):
+        if not has_chain(pid):
+            continue
+        for shape in FOLD_SHAPES:
+            big = len(pid) == (6 if quick else 7)  # the largest tables: one shape each, fewer spacings
+            if big and shape != FOLD_SHAPES[sum(pid) % len(FOLD_SHAPES)]:
+                continue
+            xyz = folded_coords(pid, shape)
+            for rule, delta in tortuous_spacings(branch_geometry(pid, xyz), (0.3, 0.8) if quick else ((0.05, 0.4, 0.9) if big else (0.05, 0.3, 0.55, 0.8, 0.97)), most=1 if (quick or big) else 2):
+                yield "resample-tree-folded", tree_case("folded-" + shape, pid, xyz, radii_for(len(pid)), delta, rule, coords="folded-" + shape)
+    # (1b) every edge of a small table expanded to a chain of s segments, all branches folded
+    for pid0 in tab4 if quick else tab5:
+        for s in (2, 3, 4) if quick else (2, 3, 4, 5, 6):
+            pid = expand_table(pid0, s)
+            for shape in FOLD_SHAPES:
+                xyz = folded_coords(pid, shape, None if (s + len(pid0)) % 2 else random.Random(seed * 77 + s))
+                cases = tortuous_spacings(branch_geometry(pid, xyz), (0.15, 0.6) if quick else (0.02, 0.4, 0.9), most=2 if len(pid0) > 2 else 1)
+                cases += [("fixed", d) for d in ((0.45,) if quick else (0.3, 0.45, 2.5))]
+                for rule, delta in cases:
+                    for root_type in (1,) if (quick or s > 2) else (1, 3):
+                        yield "resample-tree-expanded-folded", tree_case("expanded-folded-" + shape, pid, xyz, radii_for(len(pid)), delta, rule, root_type, coords="folded-" + shape, expanded=[list(pid0), s])
+
+    # (2) a coincident consecutive node with another radius on every edge, at its parent end (start of a branch at the soma / at a
+    #     furcation, or middle of a branch) and at its child end (middle or end of a branch); the samples reach the next segment
+    for pid0 in tab5 if quick else tab6:
+        for coords in ("walk",) if (quick or len(pid0) > 5) else ("walk", "hairpin"):
+            xyz0 = coords_for(pid0) if coords == "walk" else folded_coords(pid0, "hairpin")
+            for k in range(1, len(pid0)):
+                for at in ("parent", "child"):
+                    dr = 1.5 if (k + len(at)) % 2 else -0.6
+                    pid, xyz, r = insert_coincident(pid0, xyz0, radii_for(len(pid0)), k, at, dr)
+                    nxt = float(np.sqrt(((stored(xyz0)[k] - stored(xyz0)[pid0[k]]) ** 2).sum()))
+                    cases = [("fixed", 0.3)] + ([(f"0.45 * the segment ({nxt:.4f}) next to the zero-length one", 0.45 * nxt)] if nxt > 0 and (not quick or len(pid0) <= 4 or at == "parent") else [])
+                    for rule, delta in cases + ([] if quick else [("fixed", 1.0)]):
+                        yield "resample-tree-zero-length-radius-step", tree_case("zero-length-radius-step", pid, xyz, r, delta, rule, coords=coords, inserted=dict(on_edge_to=k, at=at, dr=dr))
+
+    # (3) branch length = ratio * spacing: exact multiples, slightly above a multiple, branch shorter than the spacing
+    for ti, pid in enumerate(tab5 if quick else tab6):
+        for coords in ("walk", "jitter") if len(pid) <= 5 else (("walk", "jitter")[ti % 2],):
+            xyz = coords_for(pid, random.Random(seed * 31 + ti) if coords == "jitter" else None)
+            geom = branch_geometry(pid, xyz)
+            picked = geom if len(pid) <= (3 if quick else 5) else [geom[ti % len(geom)]]
+            for ch, L, _ in picked:
+                for rule, delta in ratio_spacings(L, RATIOS_QUICK if quick else RATIOS_THOROUGH):
+                    yield "resample-tree-length-spacing-ratio", tree_case("length-spacing-ratio", pid, xyz, radii_for(len(pid)), delta, f"branch {ch[0]}..{ch[-1]}: {rule}", coords=coords)
+
+    # (5a) BranchTreeAssembler used directly, every node's branch list stored in another order: all permutations at nodes with
+    #      <= 3 children, (at least) all permutations that are not their own inverse at nodes with 4 children, a sample for 5
+    for pid in tab6 if quick else all_sorted_tables_upto(7, 2):
+        mc = max(list(pid).count(i) for i in range(len(pid)))
+        if mc < 2:
+            continue
+        xyz = coords_for(pid)
+        for k in permutation_indices(mc, quick or len(pid) > 6, rng):
+            cyc = not is_involution(nth_permutation(mc, k))
+            for delta in (DISTANCES[0], DISTANCES[-1]) if (mc <= 3 and (cyc or mc == 2) or not quick) else (DISTANCES[0],):
+                yield "assembler-permuted-branch-lists", tree_case("permuted-branch-lists", pid, xyz, radii_for(len(pid)), delta, coords="walk", permute_branches=k)
+    for pid0 in [(-1, 0, 0, 0), (-1, 0, 0, 0, 0), (-1, 0, 1, 1, 1), (-1, 0, 0, 0, 1, 1, 1)]:  # furcations with 3 and 4 multi-segment branches
+        for s in (2, 3):
+            pid = expand_table(pid0, s)
+            mc = max(list(pid).count(i) for i in range(len(pid)))
+            for coords in ("walk", "hairpin"):
+                xyz = coords_for(pid) if coords == "walk" else folded_coords(pid, "hairpin")
+                if not sibling_ends_distinct(pid, xyz):
+                    continue
+                for k in permutation_indices(mc, quick, rng):
+                    if quick and is_involution(nth_permutation(mc, k)) and coords != "walk":
+                        continue
+                    yield "assembler-permuted-branch-lists", tree_case("permuted-branch-lists-expanded", pid, xyz, radii_for(len(pid)), 0.7, coords=coords, permute_branches=k, expanded=[list(pid0), s])
+
+    # (5b) two sibling branches with different routes end at ONE position (the subtree of the second is moved there)
+    for pid0 in tab5 if quick else tab6:
+        for s in (2, 3) if (quick or len(pid0) > 4) else (2, 3, 4):
+            pid = expand_table(pid0, s)
+            pairs = sibling_end_pairs(pid)
+            if quick and len(pid0) == 5:
+                pairs = pairs[(s + sum(pid0)) % 2::2]
+            for u, w in pairs:
+                for coords in ("walk",) if (quick or len(pid0) > 5) else ("walk", "hairpin"):
+                    xyz = make_siblings_coincide(pid, coords_for(pid) if coords == "walk" else folded_coords(pid, "hairpin"), u, w)
+                    r = radii_for(len(pid))
+                    for delta in ((0.3, 0.7, 1.3) if len(pid0) <= 4 else (0.7,)) if quick else (0.3, 0.7, 1.3, 2.5):
+                        yield "resample-tree-coincident-sibling-ends", tree_case("coincident-sibling-ends", pid, xyz, r, delta, coords=coords, expanded=[list(pid0), s], coincident=[u, w])
+                    # the assembler used directly, in the stored order (well defined for any tree) ...
+                    yield "assembler-coincident-sibling-ends", tree_case("coincident-sibling-ends", pid, xyz, r, 0.7, coords=coords, expanded=[list(pid0), s], coincident=[u, w], permute_branches=0)
+                    # ... and in other orders where the coincident ends are interchangeable (two tips of equal radius)
+                    if list(pid).count(u) == 0 and list(pid).count(w) == 0 and (not quick or len(pid0) <= 4) and coincident_sibling_ends(pid, xyz) == [(u, w)]:
+                        r2 = list(r)
+                        r2[w] = r2[u]
+                        mc = max(list(pid).count(i) for i in range(len(pid)))
+                        for k in permutation_indices(mc, True, rng)[:5 if len(pid0) <= 5 else 2]:
+                            yield "assembler-coincident-sibling-ends", tree_case("coincident-equal-tips-permuted", pid, xyz, r2, 0.7, coords=coords, expanded=[list(pid0), s], coincident=[u, w], permute_branches=k)
+
+
+def random_derived_tree(rng):
+    """one seeded random member of the families above, freely combined"""
+    pid0 = random_sorted_table(rng, rng.randint(2, 6))
+    s = rng.randint(1, 4)
+    pid = expand_table(pid0, s)
+    n = len(pid)
+    coords = rng.choice(["walk", "walk"] + list(FOLD_SHAPES))
+    jit = random.Random(rng.randrange(10 ** 6))
+    xyz = coords_for(pid, jit) if coords == "walk" else folded_coords(pid, coords, jit if rng.random() < 0.7 else None)
+    r = [round(rng.uniform(0.2, 3), 2) for _ in range(n)]
+    extra = dict(coords=coords, expanded=[list(pid0), s])
+    if rng.random() < 0.25 and sibling_end_pairs(pid):
+        u, w = rng.choice(sibling_end_pairs(pid))
+        xyz = make_siblings_coincide(pid, xyz, u, w)
+        extra["coincident"] = [u, w]
+    if rng.random() < 0.4:
+        k, at, dr = rng.randrange(1, n), rng.choice(["parent", "child"]), rng.choice([-0.15, 0.8, 2.0])
+        pid, xyz, r = insert_coincident(pid, xyz, r, k, at, dr)
+        extra["inserted"] = dict(on_edge_to=k, at=at, dr=dr)
+    geom = [g for g in branch_geometry(pid, xyz) if g[1] > 0]
+    how = rng.choice(["fixed", "tortuous", "ratio", "ratio"])
+    tort = [g for g in geom if g[1] - g[2] > 0.05 * g[1]]
+    if how == "tortuous" and tort:
+        ch, L, c = rng.choice(tort)
+        f = round(rng.uniform(0.0, 1.0), 3)
+        rule, delta = f"chord+{f}*(path-chord) of branch {ch[0]}..{ch[-1]} (path {L:.4f}, chord {c:.4f})", c + f * (L - c)
+    elif how == "ratio" and geom:
+        ch, L, c = rng.choice(geom)
+        q = rng.choice([0.3, 1, 1, 2, 3, 4, 6, 11]) + rng.choice([0, 0, 0.001, 0.002, 0.003, 0.004, round(rng.uniform(0.005, 0.995), 3)])
+        rule, delta = f"branch {ch[0]}..{ch[-1]}: length {L:.6f} / {q}", L / q
+    else:
+        rule, delta = "fixed", round(rng.choice([0.2, 0.5, 1.0, 1.7, 3.3, 8.0]) * rng.uniform(0.8, 1.2), 3)
+    if delta <= 1e-6:
+        rule, delta = "fixed", 0.5
+    if rng.random() < 0.25 and sibling_ends_distinct(pid, xyz):
+        extra["permute_branches"] = rng.randrange(0, 120)
+    return tree_case("random-derived", pid, xyz, r, delta, rule, rng.choice([1, 3]), **extra)
 
 
 def run(ctx):
@@ -375,17 +822,11 @@ def run(ctx):
                 for delta in DISTANCES:
                     spec = dict(kind="resample-tree", distance=delta, coords=mode, **tree_input(pid, xyz, radii_for(n), root_type))
                     check_resample_tree(rep, spec)
-                    _, crit, _ = cut_branches(list(pid))
                     ctx.case("resample-tree", dict(pid=list(pid), coords=mode, root_type=root_type, distance=delta), nontrivial=n >= 2)
-    # BranchTreeAssembler used directly with the per-node branch lists stored in another order (rotation by 1 and 2)
-    for pid in tables:
-        if max(list(pid).count(i) for i in range(len(pid))) < 2:
-            continue
-        for rot in (1, 2):
-            for delta in (DISTANCES[0], DISTANCES[-1]):
-                spec = dict(kind="resample-tree", distance=delta, coords="walk", rotate_branches=rot, **tree_input(pid, coords_for(pid), radii_for(len(pid)), 1))
-                check_resample_tree(rep, spec)
-                ctx.case("assembler-rotated-branch-lists", dict(pid=list(pid), rot=rot, distance=delta))
+    # folded / expanded / zero-length radius steps / length-spacing ratios / permuted branch lists / coincident sibling ends
+    for group, spec in derived_tree_cases(quick, random.Random(ctx.seed * 7919 + 16), ctx.seed):  # own generators: the original random tail stays as it was
+        check_resample_tree(rep, spec)
+        ctx.case(group, {k: v for k, v in spec.items() if k not in ("xyz", "r", "type", "kind")})
     # seeded random tail: larger trees, generic coordinates and spacings
     for _ in range(60 if quick else 1500):
         n = rng.randint(7, 14)
@@ -395,32 +836,37 @@ def run(ctx):
         spec = dict(kind="resample-tree", distance=delta, coords="random", **tree_input(pid, xyz, [round(rng.uniform(0.2, 3), 2) for _ in range(n)], rng.choice([1, 3])))
         check_resample_tree(rep, spec)
         ctx.case("resample-tree-random", dict(pid=list(pid), distance=delta, xyz0=[float(v) for v in xyz[-1]]))
+    rng2 = random.Random(ctx.seed * 7919 + 17)
+    for _ in range(80 if quick else 3000):
+        spec = random_derived_tree(rng2)
+        check_resample_tree(rep, spec)
+        ctx.case("resample-tree-random-derived", {k: v for k, v in spec.items() if k not in ("r", "type", "kind")})
 
     # single branches
     for name, b in BRANCHES.items():
-        for nn in (2, 3, 4, 7, 16):
+        for nn in LINEAR_N:
             spec = dict(kind="resample-branch", op="linear", n=nn, branch=name, xyzr=b)
             check_branch_resampler(rep, spec)
             ctx.case("branch-linear", dict(branch=name, n=nn))
-        for delta in DISTANCES + [0.7]:
-            spec = dict(kind="resample-branch", op="isometric", distance=delta, branch=name, xyzr=b)
+        for rule, delta in [("fixed", d) for d in DISTANCES + [0.7]] + branch_spacings(b, quick):
+            spec = dict(kind="resample-branch", op="isometric", distance=delta, spacing_rule=rule, branch=name, family="fixed" if rule == "fixed" else "derived-spacing", xyzr=b)
             check_branch_resampler(rep, spec)
             ctx.case("branch-isometric", dict(branch=name, distance=delta))
-        for w in (1, 2, 3, 5, 8):
+        for w in smoothing_windows(len(b)):
             spec = dict(kind="smooth-branch", window=w, branch=name, xyzr=b)
             check_branch_smoother(rep, spec)
             ctx.case("branch-smooth", dict(branch=name, window=w), nontrivial=len(b) > 2)
-    for _ in range(40 if quick else 600):
-        k = rng.randint(2, 9)
-        b = [[round(rng.uniform(-3, 3), 2) for _ in range(3)] + [round(rng.uniform(0.2, 3), 2)] for _ in range(k)]
-        if rng.random() < 0.3:
-            j = rng.randrange(k - 1)
-            b[j + 1][:3] = b[j][:3]
-        for spec in (dict(kind="resample-branch", op="linear", n=rng.randint(2, 12), branch="random", xyzr=b),
-                     dict(kind="resample-branch", op="isometric", distance=rng.choice([0.3, 1, 2.5]), branch="random", xyzr=b)):
+    for _ in range(150 if quick else 3000):
+        kind, b = random_branch(rng)
+        derived = branch_spacings(b, False)
+        specs = [dict(kind="resample-branch", op="linear", n=rng.choice([2, 2, 3, 5, 12, rng.randint(2, 12), 40 * len(b)]), branch="random-" + kind, xyzr=b),
+                 dict(kind="resample-branch", op="isometric", distance=rng.choice([0.3, 1, 2.5]), spacing_rule="fixed", branch="random-" + kind, family="random-fixed", xyzr=b)]
+        for rule, delta in rng.sample(derived, min(3, len(derived))):
+            specs.append(dict(kind="resample-branch", op="isometric", distance=delta, spacing_rule=rule, branch="random-" + kind, family="random-derived-spacing", xyzr=b))
+        for spec in specs:
             check_branch_resampler(rep, spec)
             ctx.case("branch-random", dict(spec))
-        spec = dict(kind="smooth-branch", window=rng.choice([1, 2, 3, 5]), branch="random", xyzr=b)
+        spec = dict(kind="smooth-branch", window=rng.choice([1, 2, 3, 4, 5, len(b), len(b) + 1, 2 * len(b) + 3]), branch="random-" + kind, xyzr=b)
         check_branch_smoother(rep, spec)
         ctx.case("branch-smooth-random", dict(spec))
 
@@ -433,10 +879,31 @@ def run(ctx):
                 spec = dict(kind="smooth-tree", window=w, coords=mode, **tree_input(pid, xyz, radii_for(n), 1))
                 check_tree_smoother(rep, spec)
                 ctx.case("tree-smooth", dict(pid=list(pid), coords=mode, window=w), nontrivial=n >= 3)
+    # ... on trees whose branches all have s + 1 >= 3 nodes (straight-ish and folded), even windows, windows beyond the branch
+    for pid0 in all_sorted_tables_upto(4 if quick else 5, 2):
+        for s in (2, 3, 5) if quick else (2, 3, 4, 5, 7):
+            pid = expand_table(pid0, s)
+            for mode in ("walk", "hairpin", "closed") if (not quick or s < 5) else ("hairpin",):
+                xyz = coords_for(pid) if mode == "walk" else folded_coords(pid, mode)
+                for w in (2, 4, s + 2, 2 * len(pid) + 1) if quick else smoothing_windows(s + 1) + [2 * len(pid) + 1]:
+                    spec = dict(kind="smooth-tree", family="expanded", window=w, coords=mode, expanded=[list(pid0), s], **tree_input(pid, xyz, radii_for(len(pid)), 1 + 2 * (s % 2)))
+                    check_tree_smoother(rep, spec)
+                    ctx.case("tree-smooth-expanded", dict(pid=list(pid), coords=mode, window=w))
     ctx.rule(f"IsometricResampler: every sorted parent table with <= {nmax} nodes x coordinates (lattice walk, lattice with coincident points, jittered) x spacing {DISTANCES} x root type (1, 3), "
-             "plus seeded random trees of 7-14 nodes; BranchTreeAssembler applied directly with every node's branch list rotated by 1 and 2; BranchLinearResampler(n in 2,3,4,7,16) / BranchIsometricResampler on 14 hand-made branches (zero-length segments, coincident "
-             "points, closed loop) and random branches; BranchConvSmoother windows (1,2,3,5,8); TreeSmoother on every table x windows. Non-trivial = tree with >= 2 nodes "
-             "(>= 3 for smoothing).", exhaustive=False)
+             "plus seeded random trees of 7-14 nodes.  Generic derived families (spacings computed from the float32-stored geometry): "
+             "(1) tortuous branches - tables whose chains fold back (hairpin, U-turn, nearly closed loop, exactly closed loop; chord << path length) and small tables with every edge expanded to a "
+             "folded chain of 2-4 (thorough: 2-6) segments, with spacings between chord and path length of the most tortuous branches; "
+             f"(2) a coincident consecutive node with another radius inserted on every edge of every table with <= {5 if quick else 6} nodes, at its parent end (first node on the soma / on a furcation, middle of a "
+             "branch) and at its child end (middle / end of a branch), spacings 0.3 and 0.45 x the neighbouring segment; "
+             f"(3) spacing = branch length / ratio for ratios {RATIOS_QUICK if quick else 'k + (0, .001, .002, .003, .004), k in 1, 2, 3, 4, 6, 9, 17, and 0.05, 0.4, 0.999, 0.99999, 1.00001, 3.00001'} (exact multiples, slightly above a multiple, branch shorter than the spacing) on walk and jittered coordinates; "
+             "(5) BranchTreeAssembler applied directly with every node's branch list permuted: all permutations at nodes with <= 3 children, all permutations that are not their own inverse (thorough: all) at nodes with 4 "
+             "children, a seeded sample (thorough: all) for 5 children, also on stars / furcations with 3 and 4 multi-segment branches; trees in which two sibling branches with different routes end at one position "
+             "(every pair of sibling branch ends of the expanded tables, via IsometricResampler with several spacings and via the assembler in stored order; permuted order only where the coincident ends are "
+             "tips of equal radius, because otherwise pairing by position is ambiguous); seeded random combinations of all of these.  "
+             f"BranchLinearResampler(n in {LINEAR_N}: n = 2 and n >> knot count) / BranchIsometricResampler on {len(BRANCHES)} hand-made branches (zero-length segments and runs with radius steps, coincident points, "
+             "closed / nearly closed loops, hairpin, U-turn, retraced path, helix, 2-node, tiny, inexact lengths) and random branches (cloud, folded, loop, collinear commensurable), spacings fixed and derived (between chord and path; "
+             "length / ratio); BranchConvSmoother windows 1, 2, 3, 4, 5, 6, 8, n+1, 2n+1, 2n+2, 50 (even windows, windows larger than the branch, 2-node branches); TreeSmoother on every table x windows and on expanded "
+             "tables (every branch >= 3 nodes; walk, hairpin, closed) x even / oversized windows: count, id, pid, type, r, end points unchanged, all coordinates finite.  Non-trivial = tree with >= 2 nodes (>= 3 for smoothing).", exhaustive=False)
 
 
 def replay(spec):
